@@ -353,20 +353,10 @@ pub fn run(p: &Params, rep: &mut Report) {
         let n = if p.thorough { 50_000 } else { 20_000 };
         super::deep::probe(rep, "auto-chain", n, &super::deep::expect_auto_chain(n), "prune", p.seed);
     }
-    {
-        // a state with 1100 single-character labels (alphabet of more than 2^10 classes)
-        let mut calls = Vec::new();
-        for i in 0..1100u32 {
-            let c = 0x100 + 3 * i;
-            calls.push(Call::Trans(0, c, c, 1 + (i % 3)));
-        }
-        calls.push(Call::Default(0, 3));
-        for st in 1..=3u32 {
-            calls.push(Call::Trans(st, 0x100, 0x100 + 50 * st, (st + 1) % 4));
-            calls.push(Call::Default(st, st));
-        }
-        calls.push(Call::Final(2));
-        let spec = Spec { init: 0, calls };
+    if p.shard % 4 == 1 {
+        // states with more than 2^10 (2^11) explicit successors each, over an alphabet of 3 * labels classes
+        let labels = if p.thorough { 6300 } else { 3000 + 300 * (p.seed as u32 % 4) };
+        let spec = many_successors_spec(2 + (p.shard as u32 / 4), labels);
         rep.inc("wide_alphabet_automata");
         check_spec(rep, &spec, p.seed);
     }
